@@ -403,11 +403,16 @@ def coerce_arg(I, v, ty, node, what):
                     return r
             return None
         if ty[0] == 'pval':
+            if v.kind == 'valobj':
+                if 'raw_value' not in v.t['attrs']:
+                    return None
+                b = v.t['base']
+                v = SV(b.kind, b.t, cls=v.t['cls'], extra={'raw': v.t['attrs']['raw_value']})
             if v.cls in TY.PVAL_KINDS:
                 names = [k if isinstance(k, str) else k[0] for k in ty[1]]
                 return v if v.cls in names else None
             return None
-        if ty[0] in ('ext', 'func', 'cls'):
+        if ty[0] in ('ext', 'func', 'cls', 'clsref'):
             return v
         if ty[0] == 'tuple':
             return v if v.kind == 'tuple' else None
